@@ -232,6 +232,15 @@ def quiescentBad (cfg : Cfg) (cache : Mod → Par → Entry) (tr : List Obs) : O
 def OthersUnaffected (cfg : Cfg) (σ σ' : State) (a : Act) : Prop :=
   step cfg σ a = some σ' → ∀ c' m p, a.t ≠ .h c' → listens σ' c' m p = listens σ c' m p
 
+/-! ## OnlyExported: the scope of anything is made of exported parameters of exported modules -/
+
+def exportedOk (cfg : Cfg) : Obs → Bool
+  | .deliver _ m p _ => exported cfg m p
+  | _ => true
+
+/-- no update of a parameter that is not exported (or of a module that is not) is ever delivered, whatever is activated -/
+def OnlyExported (cfg : Cfg) (tr : List Obs) : Prop := tr.all (exportedOk cfg) = true
+
 /-! ## replies answer requests (well-formedness of a connection's part of the trace) -/
 
 def matchNext (op : Conn → Option Req) : Obs → Conn → Option Req
